@@ -14,6 +14,8 @@ import Req.C07.H1Conn
 import Req.C07.H3Sections
 import Req.C07.DigestAlg
 import Req.C07.H2Settings
+import Req.C07.DataBuf
+import Req.C07.Exchanges
 /-! Driver lanes of C07. -/
 namespace Req.Driver.L.C07
 open Req.Proto
@@ -303,7 +305,41 @@ def laneH2Settings : List String → String
     | _, _ => "bad-op"
   | _ => "bad-op"
 
+/-! ### round 6 -/
+
+/-- `c07databuf <expected (may be negative)> <w<n>|r<n>,…>` → the state of the receive buffer after every
+whole `Write(n bytes)` / `Read(n bytes)` call: chunk capacities, r, size; joined by `;` -/
+def laneDataBuf : List String → String
+  | [e, ops] =>
+    match e.toInt? with
+    | none => "bad-op"
+    | some ev =>
+      let step (acc : Req.C07.DataBuf.Buf × List String) (t : String) : Req.C07.DataBuf.Buf × List String :=
+        let (b, out) := acc
+        match (t.drop 1).toString.toNat? with
+        | none => (b, out ++ ["bad-op"])
+        | some n =>
+          let b' := if t.startsWith "w" then Req.C07.DataBuf.Buf.write n b n
+                    else Req.C07.DataBuf.Buf.read (n + 1) b n
+          (b', out ++ [Req.C07.DataBuf.render b'])
+      let (_, out) := (ops.splitOn ",").foldl step ({ expected := ev }, [])
+      ";".intercalate out
+  | _ => "bad-op"
+
+/-- `c07exchanges <maxRedirects> <maxRetries> <digest 0|1> <pattern over O R C A, repeated for ever>` →
+`n=<requests of the call> <last answer>` -/
+def laneExchanges : List String → String
+  | [k, n, d, pat] =>
+    match k.toNat?, n.toNat?, pat.toList.mapM Req.C07.Exchanges.Ans.ofChar with
+    | some k, some n, some p =>
+      let r := Req.C07.Exchanges.call (Req.C07.Exchanges.cyclic p) { maxRedirects := k, maxRetries := n, digest := d == "1" }
+      "n=" ++ toString r.1 ++ " " ++ r.2.name
+    | _, _, _ => "bad-op"
+  | _ => "bad-op"
+
 def lanes : List (String × (List String → String)) := [
+  ("c07databuf", laneDataBuf),
+  ("c07exchanges", laneExchanges),
   ("c07h1conn", laneH1Conn),
   ("c07h3sections", laneH3Sections),
   ("c07digestuse", laneDigestUse),
